@@ -98,9 +98,12 @@ def ensure():
         os.makedirs(root)
         t0 = time.time()
         py = _build_py(root)
-        cy, ok, log = _build_cy(root)
+        if os.environ.get("VERIF_SKIP_CY"):      # development aid (mutation screening); never set by registered commands
+            cy, ok, log = None, False, "skipped (VERIF_SKIP_CY)"
+        else:
+            cy, ok, log = _build_cy(root)
         info = {"digest": dg, "py": py, "cy": cy if ok else None, "cy_error": None if ok else log, "build_s": round(time.time() - t0, 1)}
-        if not ok:
+        if not ok and cy:
             shutil.rmtree(cy, ignore_errors=True)
         with open(marker, "w") as fh:
             json.dump(info, fh)
